@@ -75,6 +75,17 @@ fn apply(b: Builder, name: &str, x: &[u8]) -> Builder {
     }
 }
 
+/// "is the built structure 8-aligned": the address the (16-byte aligning) system allocator happened to return says little -
+/// what counts is the alignment and size the structure was REQUESTED with (an allocator that honours the request exactly
+/// would place it there). `0` = address 8-aligned and requested with alignment >= 8 and the rounded size.
+fn align_obs(ev: &[(char, usize, usize, usize)], p: usize, len: usize) -> String {
+    match ev.iter().rev().find(|e| e.0 == 'a' && e.1 == p) {
+        Some(e) if e.3 >= 8 && e.2 == len => format!("{}", p % 8),
+        Some(e) => format!("requested:{}/{}", e.2, e.3),
+        None => format!("{}", p % 8),
+    }
+}
+
 /// BUILD <op,op,...>
 pub fn build_case(t: &[&str]) -> String {
     let ops = t.get(1).copied().unwrap_or("-").to_string();
@@ -84,11 +95,13 @@ pub fn build_case(t: &[&str]) -> String {
             let (name, hx) = op.split_once(':').unwrap();
             b = apply(b, name, &unhex(hx));
         }
+        crate::alloc_track::start();
         let built = b.build();
+        let ev = crate::alloc_track::stop();
         let p = &*built as *const DynSizedStructure<BootInformationHeader> as *const u8;
         let len = std::mem::size_of_val(&*built);
         let total = built.header().total_size();
-        let mut out = format!("len={} total={} align8={} ", len, total, p as usize % 8);
+        let mut out = format!("len={} total={} align8={} ", len, total, align_obs(&ev, p as usize, len));
         match unsafe { BootInformation::load(p.cast()) } {
             Err(e) => out.push_str(&format!("load={} ", load_err(e))),
             Ok(bi) => {
@@ -173,11 +186,13 @@ pub fn hbuild_case(t: &[&str]) -> String {
             let (name, hx) = op.split_once(':').unwrap();
             b = happly(b, name, &unhex(hx));
         }
+        crate::alloc_track::start();
         let built = b.build();
+        let ev = crate::alloc_track::stop();
         let p = &*built as *const DynSizedStructure<h::Multiboot2BasicHeader> as *const u8;
         let len = std::mem::size_of_val(&*built);
         let hdr = unsafe { std::slice::from_raw_parts(p, 16) };
-        let mut out = format!("len={} align8={} hdr={} ", len, p as usize % 8, hex(hdr));
+        let mut out = format!("len={} align8={} hdr={} ", len, align_obs(&ev, p as usize, len), hex(hdr));
         match unsafe { h::Multiboot2Header::load(p.cast()) } {
             Err(e) => out.push_str(&format!("load={} ", hload_err(e))),
             Ok(hd) => {
